@@ -1,22 +1,12 @@
 import PolyVerif.Lemmas.GenbankStr
 import PolyVerif.Lemmas.GenbankOrigin
+import PolyVerif.Lemmas.GenbankWrap
 /-
 C01, LOCUS section: `parseLocus (locusLine l n ℓ) = toLocus l n`.
 -/
 set_option linter.unusedSimpArgs false
 namespace PolyVerif.Lemmas.Genbank
 open PolyVerif PolyVerif.Str PolyVerif.Genbank PolyVerif.GbLayout
-
-/-- the LOCUS line, associated to the right: token, gap, token, gap, … -/
-def L (p0 p1 p2 p3 p4 p5 : Nat) (name len mol topo div date : Str) : Str :=
-  c!"LOCUS" ++ (spaces (p0 + 1) ++ (name ++ (spaces (p1 + 1) ++ (len ++ (spaces (0 + 1) ++ (c!"bp" ++ (spaces (p2 + 1)
-    ++ (mol ++ (spaces (p3 + 1) ++ (topo ++ (spaces (p4 + 1) ++ (div ++ (spaces (p5 + 1) ++ date)))))))))))))
-
-theorem locusLine_eq (l : RLocus) (n : Nat) (ℓ : RecLayout) :
-    locusLine l n ℓ = L (ℓ.pads.getD 0 0) (ℓ.pads.getD 1 0) (ℓ.pads.getD 2 0) (ℓ.pads.getD 3 0) (ℓ.pads.getD 4 0)
-      (ℓ.pads.getD 5 0) l.name (ofNat n) l.mol.text l.topo.text (divisionCodes.getD l.division []) l.date := by
-  simp only [locusLine, gap, L, List.append_assoc]
-  rfl
 
 /-! ### splitting into tokens -/
 
@@ -38,13 +28,6 @@ theorem filter_ne_nil_replicate (k : Nat) (xs : List Str) :
   induction k with
   | zero => rfl
   | succ j ih => simp [List.replicate_succ, ih]
-
-/-- the second blank-separated non-empty field of `tok gap tok gap rest` -/
-theorem second_field (t1 t2 rest : Str) (k1 k2 : Nat) (h1 : ' ' ∉ t1) (h2 : ' ' ∉ t2) (n1 : t1 ≠ []) (n2 : t2 ≠ []) :
-    ((splitC ' ' (t1 ++ (spaces (k1 + 1) ++ (t2 ++ (spaces (k2 + 1) ++ rest))))).filter (· ≠ []))[1]? = some t2 := by
-  rw [splitC_gap t1 _ k1 h1, splitC_gap t2 _ k2 h2]
-  rw [List.filter_cons_of_pos (by simpa using n1), filter_ne_nil_replicate, List.filter_cons_of_pos (by simpa using n2)]
-  rfl
 
 /-! ### ` \d+ \w{2} ` -/
 
@@ -143,7 +126,7 @@ theorem findDate_self (d : Str) (h : isDateText d = true) : findDate d = d := by
     simp [findDate, matchDate, a1, a2, b1, b2, b3, b4, hm.1, hm.2.1, hm.2.2]
   · exact absurd h (by simp)
 
-/-! ### the text that is searched: `" " + Join(filtered[2:], " ") + " "` -/
+/-! ### token lists: the fields of the line and the text that is searched -/
 
 theorem spaces_succ_append (k : Nat) (x : Str) : spaces (k + 1) ++ x = ' ' :: (spaces k ++ x) := by
   simp [spaces, List.replicate_succ]
@@ -153,81 +136,179 @@ theorem spaces_succ_append' (k : Nat) (x : Str) : spaces (k + 1) ++ x = spaces k
   | zero => rfl
   | succ j ih => rw [spaces_succ_append, ih, spaces_succ_append]
 
-/-- blank, then the six tokens after the name, each followed by one blank -/
-def S6 (len mol topo div date : Str) : Str :=
-  spaces (0 + 1) ++ (len ++ (spaces (0 + 1) ++ (c!"bp" ++ (spaces (0 + 1) ++ (mol ++ (spaces (0 + 1) ++ (topo
-    ++ (spaces (0 + 1) ++ (div ++ (spaces (0 + 1) ++ (date ++ (spaces (0 + 1) ++ []))))))))))))
+theorem getLast?_append_ne (a b : Str) (h : b ≠ []) : (a ++ b).getLast? = b.getLast? := by
+  rw [List.getLast?_append]
+  cases hb : b.getLast? with
+  | none => exact absurd (List.getLast?_eq_none_iff.mp hb) h
+  | some x => rfl
 
-theorem S6_eq (len mol topo div date : Str) :
-    c!" " ++ join c!" " [len, c!"bp", mol, topo, div, date] ++ c!" " = S6 len mol topo div date := by
-  simp [S6, join, spaces, List.append_assoc]
+/-- a token: not empty, no white space -/
+def Tok (t : Str) : Prop := t ≠ [] ∧ ∀ c ∈ t, isSpace c = false
 
-/-- all eight blank-separated fields of the LOCUS line -/
-theorem fields_L (p0 p1 p2 p3 p4 p5 : Nat) (name len mol topo div date : Str)
-    (h1 : ' ' ∉ name) (h2 : ' ' ∉ len) (h3 : ' ' ∉ mol) (h4 : ' ' ∉ topo) (h5 : ' ' ∉ div) (h6 : ' ' ∉ date)
-    (n1 : name ≠ []) (n2 : len ≠ []) (n3 : mol ≠ []) (n4 : topo ≠ []) (n5 : div ≠ []) (n6 : date ≠ []) :
-    (splitC ' ' (L p0 p1 p2 p3 p4 p5 name len mol topo div date)).filter (· ≠ [])
-      = [c!"LOCUS", name, len, c!"bp", mol, topo, div, date] := by
-  have hL : ' ' ∉ c!"LOCUS" := by decide
-  have hbp : ' ' ∉ c!"bp" := by decide
-  simp only [L]
-  rw [splitC_gap _ _ _ hL, splitC_gap _ _ _ h1, splitC_gap _ _ _ h2, splitC_gap _ _ _ hbp, splitC_gap _ _ _ h3,
-    splitC_gap _ _ _ h4, splitC_gap _ _ _ h5, splitC_of_not_mem ' ' date h6]
-  simp only [List.filter_cons_of_pos, filter_ne_nil_replicate, ne_eq, n1, n2, n3, n4, n5, n6, not_false_eq_true,
-    decide_true, List.filter_nil, List.cons_ne_nil]
+theorem Tok.nosp {t : Str} (h : Tok t) : ' ' ∉ t := fun hm => by have := h.2 _ hm; revert this; decide
 
-section
-variable (len mol topo div date : Str)
+theorem gapped_cons (g : Nat) (t : Str) (ps : List (Nat × Str)) :
+    gapped ((g, t) :: ps) = spaces (g + 1) ++ (t ++ gapped ps) := by
+  simp [gapped, List.append_assoc]
+
+/-- `strings.Split(line, " ")` without the empty fields: the tokens -/
+theorem fields_gapped (ps : List (Nat × Str)) : ∀ (t : Str), Tok t → (∀ p ∈ ps, Tok p.2) →
+    (splitC ' ' (t ++ gapped ps)).filter (· ≠ []) = t :: ps.map (·.2) := by
+  induction ps with
+  | nil =>
+    intro t ht _
+    simp only [gapped, List.map_nil, List.flatten_nil, List.append_nil]
+    rw [splitC_of_not_mem ' ' t ht.nosp]
+    simp [ht.1]
+  | cons p ps ih =>
+    intro t ht hps
+    obtain ⟨g, t'⟩ := p
+    rw [gapped_cons, splitC_gap t _ g ht.nosp, List.filter_cons_of_pos (by simpa using ht.1), filter_ne_nil_replicate,
+      ih t' (hps (g, t') (by simp)) (fun q hq => hps q (by simp [hq]))]
+    rfl
+
+/-- `" " + strings.Join(tokens, " ") + " "`: a blank, then every token followed by a blank -/
+def sOf : List Str → Str
+  | [] => [' ']
+  | t :: ts => ' ' :: (t ++ sOf ts)
+
+theorem sOf_eq_join (toks : List Str) (h : toks ≠ []) : c!" " ++ join c!" " toks ++ c!" " = sOf toks := by
+  induction toks with
+  | nil => exact absurd rfl h
+  | cons t ts ih =>
+    cases ts with
+    | nil => simp [join, sOf]
+    | cons u us =>
+      have := ih (by simp)
+      simp only [join, sOf, List.cons_append, List.nil_append, List.append_assoc] at this ⊢
+      rw [← this]
+
+theorem contains_cons_blank (X lit : Str) (h : ' ' ∉ lit) (hne : lit ≠ []) : contains (' ' :: X) lit = contains X lit := by
+  have := contains_append_sep ' ' lit [] X h hne
+  simpa [contains_nil_lit lit hne] using this
 
 /-- a blank-free pattern lies inside one token -/
-theorem contains_S6 (lit : Str) (h : ' ' ∉ lit) (hne : lit ≠ []) :
-    contains (S6 len mol topo div date) lit =
-      (contains len lit || (contains c!"bp" lit || (contains mol lit
-        || (contains topo lit || (contains div lit || contains date lit))))) := by
-  have e : S6 len mol topo div date = [] ++ S6 len mol topo div date := rfl
-  rw [e]
-  simp only [S6, contains_gap _ _ _ _ h hne, contains_nil_lit lit hne, Bool.false_or, Bool.or_false]
+theorem contains_sOf (lit : Str) (h : ' ' ∉ lit) (hne : lit ≠ []) (toks : List Str) :
+    contains (sOf toks) lit = toks.any (contains · lit) := by
+  induction toks with
+  | nil =>
+    simp only [sOf, List.any_nil]
+    rw [contains_cons_blank [] lit h hne, contains_nil_lit lit hne]
+  | cons t ts ih =>
+    obtain ⟨X, hX⟩ : ∃ X, sOf ts = ' ' :: X := by cases ts <;> exact ⟨_, rfl⟩
+    rw [hX, contains_cons_blank X lit h hne] at ih
+    rw [sOf, contains_cons_blank _ lit h hne, hX, contains_append_sep ' ' lit t X h hne, ih]
+    simp
 
-variable (hlen : ' ' ∉ len) (hmol : ' ' ∉ mol) (htopo : ' ' ∉ topo) (hdiv : ' ' ∉ div) (hdate : ' ' ∉ date)
-include hlen hmol htopo hdiv hdate
+theorem contains_skip_token (t R v : Str) (ht : ' ' ∉ t) : contains (t ++ R) (' ' :: v) = contains R (' ' :: v) := by
+  induction t with
+  | nil => rfl
+  | cons y ys ih =>
+    have hy : y ≠ ' ' := fun e => ht (by simp [e])
+    simp only [List.cons_append, contains]
+    rw [ih (fun e => ht (by simp [e]))]
+    simp [List.isPrefixOf, Ne.symm hy]
 
 /-- blank + blank-free pattern `v`: `v` starts a token -/
-theorem contains_S6_sp (c : Char) (w : Str) (hc : c ≠ ' ') (hw : ' ' ∉ w) :
-    contains (S6 len mol topo div date) (' ' :: c :: w) =
-      ((c :: w).isPrefixOf len || ((c :: w).isPrefixOf c!"bp" || ((c :: w).isPrefixOf mol
-        || ((c :: w).isPrefixOf topo || ((c :: w).isPrefixOf div || (c :: w).isPrefixOf date))))) := by
-  have hv : ' ' ∉ c :: w := by simp [Ne.symm hc, hw]
-  have hbp : ' ' ∉ c!"bp" := by decide
-  have hnil : ' ' ∉ ([] : Str) := by simp
-  have e : S6 len mol topo div date = [] ++ S6 len mol topo div date := rfl
-  rw [e]
-  simp only [S6]
-  rw [contains_gap_sp w _ _ c 0 hc hnil, contains_gap_sp w _ _ c 0 hc hlen, contains_gap_sp w _ _ c 0 hc hbp,
-    contains_gap_sp w _ _ c 0 hc hmol, contains_gap_sp w _ _ c 0 hc htopo, contains_gap_sp w _ _ c 0 hc hdiv,
-    contains_gap_sp w _ _ c 0 hc hdate]
-  simp only [spaces_succ_append, isPrefixOf_append_sep ' ' (c :: w) _ _ hv, Bool.or_false, Bool.or_assoc, contains,
-    List.isPrefixOf]
+theorem contains_sOf_sp (v : Str) (hv : ' ' ∉ v) (hne : v ≠ []) (toks : List Str) (ht : ∀ t ∈ toks, ' ' ∉ t) :
+    contains (sOf toks) (' ' :: v) = toks.any (v.isPrefixOf ·) := by
+  induction toks with
+  | nil =>
+    cases v with
+    | nil => exact absurd rfl hne
+    | cons c w => simp [sOf, contains, List.isPrefixOf]
+  | cons t ts ih =>
+    have e : sOf ts = ' ' :: (sOf ts).tail := by cases ts <;> rfl
+    simp only [sOf, contains, List.isPrefixOf, List.any_cons, Bool.true_and]
+    rw [contains_skip_token t _ v (ht t (by simp)), ih (fun x hx => ht x (by simp [hx]))]
+    congr 1
+    rw [e]; exact isPrefixOf_append_sep ' ' v t _ hv
 
 /-- blank + blank-free `u` + blank: `u` is one of the tokens -/
-theorem contains_S6_tok (c : Char) (u : Str) (hc : c ≠ ' ') (hu : ' ' ∉ u) :
-    contains (S6 len mol topo div date) (' ' :: c :: (u ++ [' '])) =
-      ((c :: u) == len || ((c :: u) == c!"bp" || ((c :: u) == mol
-        || ((c :: u) == topo || ((c :: u) == div || (c :: u) == date))))) := by
-  have hv : ' ' ∉ c :: u := by simp [Ne.symm hc, hu]
-  have hbp : ' ' ∉ c!"bp" := by decide
-  have hnil : ' ' ∉ ([] : Str) := by simp
-  have e : S6 len mol topo div date = [] ++ S6 len mol topo div date := rfl
-  rw [e]
-  simp only [S6]
-  rw [contains_gap_sp _ _ _ c 0 hc hnil, contains_gap_sp _ _ _ c 0 hc hlen, contains_gap_sp _ _ _ c 0 hc hbp,
-    contains_gap_sp _ _ _ c 0 hc hmol, contains_gap_sp _ _ _ c 0 hc htopo, contains_gap_sp _ _ _ c 0 hc hdiv,
-    contains_gap_sp _ _ _ c 0 hc hdate]
-  have key : ∀ (t rest : Str), ' ' ∉ t → (c :: (u ++ [' '])).isPrefixOf (t ++ ' ' :: rest) = ((c :: u) == t) :=
-    fun t rest ht => isPrefixOf_token (c :: u) t rest hv ht
-  simp only [spaces_succ_append, key _ _ hlen, key _ _ hbp, key _ _ hmol, key _ _ htopo, key _ _ hdiv, key _ _ hdate,
-    Bool.or_false, Bool.or_assoc, contains, List.isPrefixOf]
+theorem contains_sOf_tok (u : Str) (hu : ' ' ∉ u) (hne : u ≠ []) (toks : List Str) (ht : ∀ t ∈ toks, ' ' ∉ t) :
+    contains (sOf toks) (' ' :: (u ++ [' '])) = toks.any (u == ·) := by
+  induction toks with
+  | nil =>
+    cases u with
+    | nil => exact absurd rfl hne
+    | cons c w =>
+      have hc : c ≠ ' ' := fun e => hu (by simp [e])
+      simp [sOf, contains, List.isPrefixOf, hc]
+  | cons t ts ih =>
+    have e : sOf ts = ' ' :: (sOf ts).tail := by cases ts <;> rfl
+    simp only [sOf, contains, List.isPrefixOf, List.any_cons, Bool.true_and]
+    rw [contains_skip_token t _ _ (ht t (by simp)), ih (fun x hx => ht x (by simp [hx]))]
+    congr 1
+    rw [e]; exact isPrefixOf_token u t _ hu (ht t (by simp))
 
-end
+/-! ### ` \d+ \w{2} ` without a length field -/
+
+/-- a token that is not a number -/
+def NotNum (t : Str) : Prop := ∃ c ∈ t, isDigit c = false
+
+theorem matchBasePair_token (t R : Str) (ht : ' ' ∉ t) (hn : NotNum t) : matchBasePair (' ' :: (t ++ ' ' :: R)) = none := by
+  obtain ⟨c, hc, hcd⟩ := hn
+  -- the digits at the front of t are followed by a character of t that is neither digit nor blank
+  have key : ∀ (t : Str), ' ' ∉ t → (∃ c ∈ t, isDigit c = false) →
+      ∃ x r, (t ++ ' ' :: R).dropWhile isDigit = x :: r ∧ x ≠ ' ' := by
+    intro t
+    induction t with
+    | nil => intro _ h; obtain ⟨c, hc, _⟩ := h; simp at hc
+    | cons y ys ih =>
+      intro hsp hex
+      have hy : y ≠ ' ' := fun e => hsp (by simp [e])
+      by_cases hd : isDigit y = true
+      · obtain ⟨c, hc, hcd⟩ := hex
+        have hcys : c ∈ ys := by
+          rcases List.mem_cons.mp hc with rfl | h
+          · rw [hd] at hcd; cases hcd
+          · exact h
+        obtain ⟨x, r, hx, hxne⟩ := ih (fun e => hsp (by simp [e])) ⟨c, hcys, hcd⟩
+        exact ⟨x, r, by simp [List.dropWhile, hd, hx], hxne⟩
+      · exact ⟨y, ys ++ ' ' :: R, by simp [List.dropWhile, hd], hy⟩
+  obtain ⟨x, r, hx, hxne⟩ := key t ht ⟨c, hc, hcd⟩
+  simp only [matchBasePair]
+  split
+  · rfl
+  · rw [hx]
+    split
+    · rename_i heq; simp at heq; exact absurd heq.1 hxne
+    · rfl
+
+theorem findBasePair_sOf_none (toks : List Str) (ht : ∀ t ∈ toks, ' ' ∉ t ∧ NotNum t) : findBasePair (sOf toks) = [] := by
+  induction toks with
+  | nil => simp [sOf, findBasePair, matchBasePair]
+  | cons t ts ih =>
+    obtain ⟨X, hX⟩ : ∃ X, sOf ts = ' ' :: X := by cases ts <;> exact ⟨_, rfl⟩
+    obtain ⟨h1, h2⟩ := ht t (by simp)
+    have hm : matchBasePair (' ' :: (t ++ sOf ts)) = none := by rw [hX]; exact matchBasePair_token t X h1 h2
+    rw [sOf, findBasePair, hm, findBasePair_skip_token t _ h1]
+    exact ih (fun x hx => ht x (by simp [hx]))
+
+/-! ### the date -/
+
+theorem findDate_none (s : Str) (h : '-' ∉ s) : findDate s = [] := by
+  induction s with
+  | nil => rfl
+  | cons c cs ih =>
+    simp only [findDate]
+    rw [matchDate_false, if_neg (by simp)]
+    · exact ih (fun e => h (by simp [e]))
+    · intro e
+      exact h (List.mem_of_getElem? e)
+
+theorem findDate_self_sp (d : Str) (h : isDateText d = true) : findDate (d ++ [' ']) = d := by
+  unfold isDateText at h
+  split at h
+  · rename_i d1 d2 m1 m2 m3 y1 y2 y3 y4
+    simp only [Bool.and_eq_true] at h
+    obtain ⟨⟨⟨⟨⟨⟨a1, a2⟩, am⟩, b1⟩, b2⟩, b3⟩, b4⟩ := h
+    have hm : isUpper m1 = true ∧ isUpper m2 = true ∧ isUpper m3 = true := by
+      have : ∀ m ∈ monthNames, m.all isUpper = true := by decide
+      have := this [m1, m2, m3] (by simpa using am)
+      simpa using this
+    simp [findDate, matchDate, a1, a2, b1, b2, b3, b4, hm.1, hm.2.1, hm.2.2]
+  · exact absurd h (by simp)
 
 /-! ### facts about the tokens -/
 
@@ -243,15 +324,21 @@ theorem firstContained_of_eq (s x : Str) (l : List Str) (h : ∀ y ∈ l, contai
       simp only [this]
       exact ih (fun z hz => h z (by simp [hz])) (by simpa [e] using hx)
 
-/-- the blank-free literals searched in the LOCUS line -/
-def lits : List Str := [c!"DNA", c!"mRNA", c!"tRNA", c!"rRNA"] ++ divisionCodes
+theorem firstContained_none (s : Str) (l : List Str) (h : ∀ y ∈ l, contains s y = false) : firstContained s l = [] := by
+  induction l with
+  | nil => rfl
+  | cons y ys ih =>
+    simp only [firstContained, h y (by simp)]
+    exact ih (fun z hz => h z (by simp [hz]))
 
-/-- the lower-case first words of the molecule types that contain a blank -/
-def lowWords : List Str := [c!"genomic", c!"other", c!"transcribed", c!"viral", c!"unassigned"]
-
-theorem lits_props : ∀ lit ∈ lits, ' ' ∉ lit ∧ '-' ∉ lit ∧ lit ≠ [] ∧ (∃ c ∈ lit, isUpper c = true) := by decide
-
-theorem lowWords_props : ∀ w ∈ lowWords, ' ' ∉ w ∧ w ≠ [] ∧ (∃ c ∈ w, isLower c = true) := by decide
+theorem longestContained_congr (s : Str) (cur : Str) (l : List Str) (f : Str → Bool)
+    (h : ∀ x ∈ l, contains s x = f x) :
+    longestContained s cur l = l.foldl (fun cur x => if (if f x then x else []).length > cur.length then (if f x then x else []) else cur) cur := by
+  induction l generalizing cur with
+  | nil => rfl
+  | cons x xs ih =>
+    simp only [longestContained, List.foldl_cons, h x (by simp)]
+    exact ih _ (fun y hy => h y (by simp [hy]))
 
 theorem isUpper_false_of_digit {c : Char} (h : isDigit c = true) : isUpper c = false := by
   simp only [isDigit, isUpper, Bool.and_eq_true, decide_eq_true_eq, Bool.and_eq_false_iff, decide_eq_false_iff_not] at *
@@ -263,6 +350,11 @@ theorem isLower_false_of_digit {c : Char} (h : isDigit c = true) : isLower c = f
 
 theorem ne_of_isDigit {c d : Char} (h : isDigit c = true) (hd : isDigit d = false) : c ≠ d := by
   rintro rfl; simp [h] at hd
+
+theorem isSpace_false_of_digit {c : Char} (h : isDigit c = true) : isSpace c = false := by
+  simp only [isDigit, Bool.and_eq_true, decide_eq_true_eq] at h
+  simp only [isSpace, Bool.or_eq_false_iff, beq_eq_false_iff_ne]
+  refine ⟨⟨⟨⟨⟨?_, ?_⟩, ?_⟩, ?_⟩, ?_⟩, ?_⟩ <;> (rintro rfl; revert h; decide)
 
 structure DigitFacts (ds : Str) : Prop where
   nosp : ' ' ∉ ds
@@ -288,266 +380,535 @@ theorem date_parts {d : Str} (h : isDateText d = true) :
     exact ⟨d1, d2, [m1, m2, m3], y1, y2, y3, y4, rfl, by simpa using am, a1, a2, b1, b2, b3, b4⟩
   · exact absurd h (by simp)
 
-theorem month_facts : ∀ m ∈ monthNames, ' ' ∉ m ∧ (∀ lit ∈ lits, contains m lit = false)
-    ∧ (∀ c ∈ m, isLower c = false) := by decide
+/-- words searched in the LOCUS text: the one-word molecule types and the first words of the two-word
+ones (`molLits`), the second words of the two-word ones (`secondWords`) -/
+def molLits : List Str := [c!"DNA", c!"mRNA", c!"tRNA", c!"rRNA", c!"genomic", c!"other", c!"transcribed", c!"viral", c!"unassigned"]
+def secondWords : List Str := [c!"DNA", c!"RNA", c!"cRNA"]
 
-/-- every character of a date is a digit, '-' or an upper-case letter -/
-theorem date_chars {d : Str} (h : isDateText d = true) : ∀ c ∈ d, isLower c = false ∧ c ≠ ' ' := by
+theorem lits_props : ∀ lit ∈ molLits ++ divisionCodes, ' ' ∉ lit ∧ '-' ∉ lit ∧ lit ≠ [] ∧ (∃ c ∈ lit, isLetter c = true) := by decide
+
+instance (t : Str) : Decidable (Tok t) := by unfold Tok; exact inferInstance
+instance (t : Str) : Decidable (NotNum t) := by unfold NotNum; exact inferInstance
+
+/-- a token other than the molecule type: no molecule-type word occurs in it and it does not begin like
+the second word of one -/
+def Other (t : Str) : Prop := (∀ x ∈ molLits, contains t x = false) ∧ (∀ x ∈ secondWords, x.isPrefixOf t = false)
+/-- not a topology word -/
+def NoCirc (t : Str) : Prop := (c!"circular" == t) = false ∧ (c!"linear" == t) = false
+/-- no division code occurs in it -/
+def DivFree (t : Str) : Prop := ∀ y ∈ divisionCodes, contains t y = false
+
+instance (t : Str) : Decidable (Other t) := by unfold Other; exact inferInstance
+instance (t : Str) : Decidable (NoCirc t) := by unfold NoCirc; exact inferInstance
+instance (t : Str) : Decidable (DivFree t) := by unfold DivFree; exact inferInstance
+
+theorem isLetter_false_of_digit {c : Char} (h : isDigit c = true) : isLetter c = false := by
+  simp only [isLetter, Bool.or_eq_false_iff]; exact ⟨isUpper_false_of_digit h, isLower_false_of_digit h⟩
+
+theorem contains_digits_false {t lit : Str} (h : ∀ c ∈ t, isDigit c = true) (hl : lit ∈ molLits ++ divisionCodes) :
+    contains t lit = false :=
+  contains_false_of_class isLetter (lits_props lit hl).2.2.2 (fun c hc => isLetter_false_of_digit (h c hc))
+
+theorem prefix_false_of_head {x t : Str} {c d : Char} {r r' : Str} (hx : x = c :: r) (ht : t = d :: r') (h : c ≠ d) :
+    x.isPrefixOf t = false := by
+  subst hx ht; simp [List.isPrefixOf, h]
+
+theorem beq_false_of_head {x t : Str} {c d : Char} {r r' : Str} (hx : x = c :: r) (ht : t = d :: r') (h : c ≠ d) :
+    (x == t) = false := by
+  subst hx ht; rw [beq_eq_false_iff_ne]; intro e; exact h (List.cons.inj e).1
+
+/-- a token that begins with a digit and whose parts between '-' are digits or a month name -/
+theorem digits_token {t : Str} (h : ∀ c ∈ t, isDigit c = true) (hne : t ≠ []) :
+    Tok t ∧ Other t ∧ NoCirc t ∧ DivFree t ∧ '-' ∉ t := by
+  obtain ⟨x, xs, rfl⟩ : ∃ x xs, t = x :: xs := by cases t with | nil => exact absurd rfl hne | cons x xs => exact ⟨x, xs, rfl⟩
+  have hx := h x (by simp)
+  have hh : ∀ (c : Char), isDigit c = false → c ≠ x := fun c hc e => by rw [e, hx] at hc; cases hc
+  refine ⟨⟨hne, fun c hc => isSpace_false_of_digit (h c hc)⟩, ⟨?_, ?_⟩, ⟨?_, ?_⟩, ?_, (digitFacts h).nodash⟩
+  · intro y hy; exact contains_digits_false h (by simp [hy])
+  · intro y hy
+    simp only [secondWords, List.mem_cons, List.not_mem_nil, or_false] at hy
+    rcases hy with rfl | rfl | rfl
+    · exact prefix_false_of_head rfl rfl (hh 'D' (by decide))
+    · exact prefix_false_of_head rfl rfl (hh 'R' (by decide))
+    · exact prefix_false_of_head rfl rfl (hh 'c' (by decide))
+  · exact beq_false_of_head rfl rfl (hh 'c' (by decide))
+  · exact beq_false_of_head rfl rfl (hh 'l' (by decide))
+  · intro y hy; exact contains_digits_false h (by simp [hy])
+
+theorem month_facts : ∀ m ∈ monthNames, (∀ c ∈ m, isSpace c = false) ∧ (∀ lit ∈ molLits ++ divisionCodes, contains m lit = false) := by decide
+
+theorem date_token {d : Str} (h : isDateText d = true) : Tok d ∧ Other d ∧ NoCirc d ∧ DivFree d ∧ NotNum d := by
   obtain ⟨d1, d2, mon, y1, y2, y3, y4, rfl, hm, a1, a2, b1, b2, b3, b4⟩ := date_parts h
   have hsp : isDigit ' ' = false := by decide
-  obtain ⟨hmon, _, hmlow⟩ := month_facts mon hm
-  have dg : ∀ c, isDigit c = true → isLower c = false ∧ c ≠ ' ' :=
-    fun c hc => ⟨isLower_false_of_digit hc, ne_of_isDigit hc hsp⟩
-  intro c hmem
-  simp only [List.mem_append, List.mem_cons, List.not_mem_nil, or_false] at hmem
-  rcases hmem with (h | h) | h | h | h | h | h | h | h
-  · subst h; exact dg _ a1
-  · subst h; exact dg _ a2
-  · subst h; decide
-  · exact ⟨hmlow c h, by rintro rfl; exact hmon h⟩
-  · subst h; decide
-  · subst h; exact dg _ b1
-  · subst h; exact dg _ b2
-  · subst h; exact dg _ b3
-  · subst h; exact dg _ b4
+  obtain ⟨hmon, hmlit⟩ := month_facts mon hm
+  have hh : ∀ (c : Char), isDigit c = false → c ≠ d1 := fun c hc e => by rw [e, a1] at hc; cases hc
+  have hcont : ∀ lit ∈ molLits ++ divisionCodes, contains ([d1, d2] ++ '-' :: (mon ++ '-' :: [y1, y2, y3, y4])) lit = false := by
+    intro lit hl
+    obtain ⟨_, hd, hne, _⟩ := lits_props lit hl
+    rw [contains_append_sep '-' lit _ _ hd hne, contains_append_sep '-' lit _ _ hd hne, hmlit lit hl,
+      contains_digits_false (t := [d1, d2]) (by intro c hc; simp at hc; rcases hc with rfl | rfl <;> assumption) hl,
+      contains_digits_false (t := [y1, y2, y3, y4]) (by intro c hc; simp at hc; rcases hc with rfl | rfl | rfl | rfl <;> assumption) hl]
+    rfl
+  refine ⟨⟨by simp, ?_⟩, ⟨fun y hy => hcont y (by simp [hy]), ?_⟩, ⟨?_, ?_⟩, fun y hy => hcont y (by simp [hy]), ⟨'-', by simp, by decide⟩⟩
+  · intro c hmem
+    simp only [List.mem_append, List.mem_cons, List.not_mem_nil, or_false] at hmem
+    rcases hmem with (h | h) | h | h | h | h | h | h | h
+    · subst h; exact isSpace_false_of_digit a1
+    · subst h; exact isSpace_false_of_digit a2
+    · subst h; decide
+    · exact hmon c h
+    · subst h; decide
+    · subst h; exact isSpace_false_of_digit b1
+    · subst h; exact isSpace_false_of_digit b2
+    · subst h; exact isSpace_false_of_digit b3
+    · subst h; exact isSpace_false_of_digit b4
+  · intro y hy
+    simp only [secondWords, List.mem_cons, List.not_mem_nil, or_false] at hy
+    rcases hy with rfl | rfl | rfl
+    · exact prefix_false_of_head rfl rfl (hh 'D' (by decide))
+    · exact prefix_false_of_head rfl rfl (hh 'R' (by decide))
+    · exact prefix_false_of_head rfl rfl (hh 'c' (by decide))
+  · exact beq_false_of_head rfl rfl (hh 'c' (by decide))
+  · exact beq_false_of_head rfl rfl (hh 'l' (by decide))
 
-theorem date_nosp {d : Str} (h : isDateText d = true) : ' ' ∉ d := fun hm => (date_chars h _ hm).2 rfl
+theorem date_dash {d : Str} (h : isDateText d = true) : d[0]? ≠ some '-' ∧ d[1]? ≠ some '-' := by
+  obtain ⟨d1, d2, mon, y1, y2, y3, y4, rfl, _, a1, a2, _⟩ := date_parts h
+  constructor
+  · simp; rintro rfl; revert a1; decide
+  · simp; rintro rfl; revert a2; decide
 
-theorem date_head_digit {d : Str} (h : isDateText d = true) : ∃ c r, d = c :: r ∧ isDigit c = true := by
-  obtain ⟨d1, d2, mon, y1, y2, y3, y4, rfl, _, a1, _⟩ := date_parts h
-  exact ⟨d1, _, rfl, a1⟩
+theorem bp_token : Tok c!"bp" ∧ Other c!"bp" ∧ NoCirc c!"bp" ∧ DivFree c!"bp" ∧ NotNum c!"bp" ∧ '-' ∉ c!"bp" := by decide
 
-theorem date_last {d : Str} (h : isDateText d = true) : ∃ c, d.getLast? = some c ∧ isDigit c = true := by
-  obtain ⟨d1, d2, mon, y1, y2, y3, y4, rfl, _, _, _, _, _, _, b4⟩ := date_parts h
-  exact ⟨y4, List.getLast?_eq_some_iff.mpr ⟨[d1, d2, '-'] ++ mon ++ ['-', y1, y2, y3], by simp⟩, b4⟩
-
-theorem date_contains_lit {d : Str} (h : isDateText d = true) (lit : Str) (hl : lit ∈ lits) : contains d lit = false := by
-  obtain ⟨d1, d2, mon, y1, y2, y3, y4, rfl, hm, a1, a2, b1, b2, b3, b4⟩ := date_parts h
-  obtain ⟨_, hd, hne, hup⟩ := lits_props lit hl
-  rw [contains_append_sep '-' lit _ _ hd hne, contains_append_sep '-' lit _ _ hd hne, (month_facts mon hm).2.1 lit hl,
-    contains_false_of_class isUpper hup, contains_false_of_class isUpper hup]
-  · rfl
-  · intro c hc; simp at hc; rcases hc with rfl | rfl | rfl | rfl <;> exact isUpper_false_of_digit (by assumption)
-  · intro c hc; simp at hc; rcases hc with rfl | rfl <;> exact isUpper_false_of_digit (by assumption)
-
-theorem fixed_contains : (∀ lit ∈ lits, contains c!"bp" lit = false) ∧ (∀ w ∈ lowWords, contains c!"bp" w = false) := by
-  decide
-
-theorem mol_facts (m : MolType) : ' ' ∉ m.text ∧ m.text ≠ [] ∧ m.text ∈ lits ∧ (∀ lit ∈ lits, contains m.text lit = (m.text == lit))
-    ∧ (∀ w ∈ lowWords, contains m.text w = false)
-    ∧ (c!"circular" == m.text) = false ∧ (c!"linear" == m.text) = false := by
-  cases m <;> decide
-
-theorem topo_facts (t : Topology) : ' ' ∉ t.text ∧ t.text ≠ [] ∧ (∀ lit ∈ lits, contains t.text lit = false)
-    ∧ (∀ w ∈ lowWords, contains t.text w = false) := by
+theorem topo_token (t : Topology) : Tok t.text ∧ Other t.text ∧ DivFree t.text ∧ NotNum t.text ∧ '-' ∉ t.text := by
   cases t <;> decide
 
-theorem div_facts : ∀ d ∈ divisionCodes, ' ' ∉ d ∧ d ≠ [] ∧ d ∈ lits ∧ (∀ lit ∈ lits, contains d lit = (d == lit))
-    ∧ (∀ w ∈ lowWords, contains d w = false)
-    ∧ (c!"circular" == d) = false ∧ (c!"linear" == d) = false := by decide
+theorem div_token : ∀ d ∈ divisionCodes, Tok d ∧ Other d ∧ NoCirc d ∧ NotNum d ∧ '-' ∉ d
+    ∧ ∀ y ∈ divisionCodes, contains d y = (d == y) := by decide
 
+/-- the words of a molecule type -/
+def molWords (mol : Str) : List Str := if mol = [] then [] else splitC ' ' mol
+
+theorem molWords_facts : ∀ m ∈ [] :: molTypes, ∀ w ∈ molWords m, Tok w ∧ NoCirc w ∧ DivFree w ∧ NotNum w ∧ '-' ∉ w := by decide
+
+/-- the two-word molecule types: first word, second word -/
+def spaced : List (Str × Str) :=
+  [(c!"genomic", c!"DNA"), (c!"genomic", c!"RNA"), (c!"other", c!"RNA"), (c!"other", c!"DNA"), (c!"transcribed", c!"RNA"),
+   (c!"viral", c!"cRNA"), (c!"unassigned", c!"DNA"), (c!"unassigned", c!"RNA")]
+
+theorem molTypes_cases : ∀ x ∈ genBankMoleculeTypes,
+    (x ∈ molLits ∧ ' ' ∉ x) ∨ ∃ p ∈ spaced, x = p.1 ++ ' ' :: p.2 := by decide
+
+theorem spaced_props : ∀ p ∈ spaced, p.1 ∈ molLits ∧ p.2 ∈ secondWords ∧ ' ' ∉ p.2 ∧ p.2 ≠ [] := by decide
+
+/-- what the molecule-type search finds depends on the words of the molecule type only: a two-word type
+whose first word occurs in a word of the molecule type and whose second word begins one, stands there … -/
+theorem mol_table : ∀ m ∈ [] :: molTypes, ∀ p ∈ spaced,
+    (molWords m).any (contains · p.1) = true → (molWords m).any (p.2.isPrefixOf ·) = true →
+      contains (sOf (molWords m)) (p.1 ++ ' ' :: p.2) = true := by decide
+
+/-- … and the longest type found is the one that stands there -/
+theorem mol_longest : ∀ m ∈ [] :: molTypes, longestContained (sOf (molWords m)) [] genBankMoleculeTypes = m := by decide
+
+/-! ### the tokens of a LOCUS line -/
+
+def optS (t : Str) : List Str := if t = [] then [] else [t]
+
+/-- the tokens after the name -/
+def restToks (l : RLocus) : List Str :=
+  optS l.len ++ ([c!"bp"] ++ (molWords l.mol ++ (optS (topoText l.topo) ++ (optS l.division ++ optS l.date))))
+
+theorem molToks_map (pad : Nat) (mol : Str) : (molToks pad mol).map (·.2) = molWords mol := by
+  unfold molToks molWords
+  split
+  · rfl
+  · cases h : splitC ' ' mol with
+    | nil => exact absurd h (splitC_ne_nil _ _)
+    | cons w ws => simp [List.map_map, Function.comp_def]
+
+theorem optTok_map (pad : Nat) (t : Str) : (optTok pad t).map (·.2) = optS t := by
+  unfold optTok optS; split <;> rfl
+
+theorem locusToks_map (l : RLocus) (ℓ : RecLayout) : (locusToks l ℓ).map (·.2) = l.name :: restToks l := by
+  unfold locusToks restToks
+  simp only [List.map_append, molToks_map, optTok_map, List.map_cons, List.map_nil, List.cons_append, List.nil_append]
+  congr 1
+  unfold optS
+  split <;> simp
+
+theorem any_false {α : Type} (L : List α) (P : α → Bool) (h : ∀ t ∈ L, P t = false) : L.any P = false := by
+  rw [List.any_eq_false]; intro x hx; simp [h x hx]
+
+theorem any_drop_left {α : Type} (A B : List α) (P : α → Bool) (h : ∀ t ∈ A, P t = false) : (A ++ B).any P = B.any P := by
+  rw [List.any_append, any_false A P h]; rfl
+
+theorem any_drop_right {α : Type} (A B : List α) (P : α → Bool) (h : ∀ t ∈ B, P t = false) : (A ++ B).any P = A.any P := by
+  rw [List.any_append, any_false B P h]; simp
+
+theorem sOf_snoc (T : List Str) (d : Str) : sOf (T ++ [d]) = sOf T ++ (d ++ [' ']) := by
+  induction T with
+  | nil => simp [sOf]
+  | cons t ts ih => simp [sOf, ih, List.append_assoc]
+
+theorem sOf_append (A B : List Str) : ∃ pre, sOf (A ++ B) = pre ++ sOf B := by
+  induction A with
+  | nil => exact ⟨[], rfl⟩
+  | cons t ts ih => obtain ⟨pre, h⟩ := ih; exact ⟨' ' :: (t ++ pre), by simp [sOf, h, List.append_assoc]⟩
+
+theorem sOf_prefix (ws B : List Str) : sOf ws <+: sOf (ws ++ B) := by
+  induction ws with
+  | nil =>
+    cases B with
+    | nil => exact List.prefix_refl _
+    | cons b bs => exact ⟨b ++ sOf bs, rfl⟩
+  | cons t ts ih =>
+    simp only [sOf, List.cons_append]
+    exact (List.prefix_cons_inj _).mpr ((List.prefix_append_right_inj _).mpr ih)
+
+theorem sOf_infix (A ws B : List Str) : sOf ws <:+: sOf (A ++ (ws ++ B)) := by
+  obtain ⟨pre, h⟩ := sOf_append A (ws ++ B)
+  rw [h]
+  exact (sOf_prefix ws B).isInfix.trans (List.suffix_append pre _).isInfix
+
+theorem dash_sOf (T : List Str) (h : ∀ t ∈ T, '-' ∉ t) : '-' ∉ sOf T := by
+  induction T with
+  | nil => simp [sOf]
+  | cons t ts ih =>
+    simp only [sOf, List.mem_cons, List.mem_append, not_or]
+    exact ⟨by decide, h t (by simp), ih (fun x hx => h x (by simp [hx]))⟩
+
+theorem longestContained_congr2 (s s' : Str) (l : List Str) (h : ∀ x ∈ l, contains s x = contains s' x) :
+    ∀ cur, longestContained s cur l = longestContained s' cur l := by
+  induction l with
+  | nil => intro _; rfl
+  | cons x xs ih =>
+    intro cur
+    simp only [longestContained, h x (by simp)]
+    exact ih (fun y hy => h y (by simp [hy])) _
+
+theorem molTypes_same : genBankMoleculeTypes = molTypes := rfl
 theorem divisions_same : genbankDivisions = divisionCodes := rfl
 
-theorem isSpace_false_of_digit {c : Char} (h : isDigit c = true) : isSpace c = false := by
-  simp only [isDigit, Bool.and_eq_true, decide_eq_true_eq] at h
-  simp only [isSpace, Bool.or_eq_false_iff, beq_eq_false_iff_ne]
-  refine ⟨⟨⟨⟨⟨?_, ?_⟩, ?_⟩, ?_⟩, ?_⟩, ?_⟩ <;> (rintro rfl; revert h; decide)
+/-- every token of the line after the name, with what the searches need of it -/
+structure RestFacts (l : RLocus) : Prop where
+  tok : ∀ t ∈ restToks l, Tok t
+  notnum_nolen : l.len = [] → ∀ t ∈ restToks l, NotNum t
+  other : ∀ t ∈ optS l.len ++ [c!"bp"], Other t
+  other' : ∀ t ∈ optS (topoText l.topo) ++ (optS l.division ++ optS l.date), Other t
+  nocirc : ∀ t ∈ optS l.len ++ ([c!"bp"] ++ molWords l.mol), NoCirc t
+  nocirc' : ∀ t ∈ optS l.division ++ optS l.date, NoCirc t
+  divfree : ∀ t ∈ optS l.len ++ ([c!"bp"] ++ (molWords l.mol ++ optS (topoText l.topo))), DivFree t
+  divfree' : ∀ t ∈ optS l.date, DivFree t
+  nodash : ∀ t ∈ optS l.len ++ ([c!"bp"] ++ (molWords l.mol ++ (optS (topoText l.topo) ++ optS l.division))), '-' ∉ t
 
-theorem ne_of_head_digit {lit ds : Str} {c : Char} {r : Str} (hd : ds = c :: r) (hc : isDigit c = true)
-    (hl : ∀ x, lit.head? = some x → isDigit x = false) : (lit == ds) = false := by
-  rw [beq_eq_false_iff_ne]; rintro rfl
-  have := hl c (by rw [hd]; rfl); simp [hc] at this
+theorem mem_optS {t x : Str} (h : x ∈ optS t) : x = t ∧ t ≠ [] := by
+  unfold optS at h; split at h
+  · simp at h
+  · rename_i hne; simp at h; exact ⟨h, hne⟩
 
-theorem getLast?_append_ne (a b : Str) (h : b ≠ []) : (a ++ b).getLast? = b.getLast? := by
-  rw [List.getLast?_append]
-  cases hb : b.getLast? with
-  | none => exact absurd (List.getLast?_eq_none_iff.mp hb) h
-  | some x => rfl
+theorem restFacts (l : RLocus) (h : wfLocus l = true) :
+    RestFacts l ∧ l.mol ∈ [] :: molTypes ∧ (l.division = [] ∨ l.division ∈ divisionCodes) ∧ (l.date = [] ∨ isDateText l.date = true) := by
+  simp only [wfLocus, Bool.and_eq_true, Bool.or_eq_true, beq_iff_eq, List.all_eq_true] at h
+  obtain ⟨⟨⟨⟨_, hlen⟩, hmol⟩, hdiv⟩, hdate⟩ := h
+  have hmol' : l.mol ∈ [] :: molTypes := by
+    rcases hmol with h | h
+    · rw [h]; simp
+    · exact List.mem_cons_of_mem _ (by simpa using h)
+  have hdiv' : l.division = [] ∨ l.division ∈ divisionCodes := by
+    rcases hdiv with h | h
+    · exact Or.inl h
+    · exact Or.inr (by simpa using h)
+  have hdate' : l.date = [] ∨ isDateText l.date = true := hdate
+  -- facts per token
+  have fLen : ∀ t ∈ optS l.len, Tok t ∧ Other t ∧ NoCirc t ∧ DivFree t ∧ '-' ∉ t := by
+    intro t ht; obtain ⟨rfl, hne⟩ := mem_optS ht; exact digits_token hlen hne
+  have fMol := molWords_facts l.mol hmol'
+  have fTopo : ∀ t ∈ optS (topoText l.topo), Tok t ∧ Other t ∧ DivFree t ∧ NotNum t ∧ '-' ∉ t := by
+    intro t ht; obtain ⟨rfl, hne⟩ := mem_optS ht
+    cases htp : l.topo with
+    | none => rw [htp] at hne; exact absurd rfl hne
+    | some x => exact topo_token x
+  have fDiv : ∀ t ∈ optS l.division, Tok t ∧ Other t ∧ NoCirc t ∧ NotNum t ∧ '-' ∉ t := by
+    intro t ht; obtain ⟨rfl, hne⟩ := mem_optS ht
+    rcases hdiv' with h | h
+    · exact absurd h hne
+    · obtain ⟨a, b, c, d, e, _⟩ := div_token _ h; exact ⟨a, b, c, d, e⟩
+  have fDate : ∀ t ∈ optS l.date, Tok t ∧ Other t ∧ NoCirc t ∧ DivFree t ∧ NotNum t := by
+    intro t ht; obtain ⟨rfl, hne⟩ := mem_optS ht
+    rcases hdate' with h | h
+    · exact absurd h hne
+    · exact date_token h
+  obtain ⟨b1, b2, b3, b4, b5, b6⟩ := bp_token
+  refine ⟨⟨?_, ?_, ?_, ?_, ?_, ?_, ?_, ?_, ?_⟩, hmol', hdiv', hdate'⟩
+  · intro t ht
+    simp only [restToks, List.mem_append, List.mem_singleton] at ht
+    rcases ht with h | rfl | h | h | h | h
+    · exact (fLen t h).1
+    · exact b1
+    · exact (fMol t h).1
+    · exact (fTopo t h).1
+    · exact (fDiv t h).1
+    · exact (fDate t h).1
+  · intro hl t ht
+    simp only [restToks, optS, hl, if_true, List.nil_append, List.mem_append, List.mem_singleton] at ht
+    rcases ht with rfl | h | h | h | h
+    · exact b5
+    · exact (fMol t h).2.2.2.1
+    · exact (fTopo t (by simpa [optS] using h)).2.2.2.1
+    · exact (fDiv t (by simpa [optS] using h)).2.2.2.1
+    · exact (fDate t (by simpa [optS] using h)).2.2.2.2
+  · intro t ht
+    simp only [List.mem_append, List.mem_singleton] at ht
+    rcases ht with h | rfl
+    · exact (fLen t h).2.1
+    · exact b2
+  · intro t ht
+    simp only [List.mem_append] at ht
+    rcases ht with h | h | h
+    · exact (fTopo t h).2.1
+    · exact (fDiv t h).2.1
+    · exact (fDate t h).2.1
+  · intro t ht
+    simp only [List.mem_append, List.mem_singleton] at ht
+    rcases ht with h | rfl | h
+    · exact (fLen t h).2.2.1
+    · exact b3
+    · exact (fMol t h).2.1
+  · intro t ht
+    simp only [List.mem_append] at ht
+    rcases ht with h | h
+    · exact (fDiv t h).2.2.1
+    · exact (fDate t h).2.2.1
+  · intro t ht
+    simp only [List.mem_append, List.mem_singleton] at ht
+    rcases ht with h | rfl | h | h
+    · exact (fLen t h).2.2.2.1
+    · exact b4
+    · exact (fMol t h).2.2.1
+    · exact (fTopo t h).2.2.1
+  · intro t ht; exact (fDate t ht).2.2.2.1
+  · intro t ht
+    simp only [List.mem_append, List.mem_singleton] at ht
+    rcases ht with h | rfl | h | h | h
+    · exact (fLen t h).2.2.2.2
+    · exact b6
+    · exact (fMol t h).2.2.2.2
+    · exact (fTopo t h).2.2.2.2
+    · exact (fDiv t h).2.2.2.2
 
-/-- everything before the date -/
-def Lpre (p0 p1 p2 p3 p4 p5 : Nat) (name len mol topo div : Str) : Str :=
-  c!"LOCUS" ++ (spaces (p0 + 1) ++ (name ++ (spaces (p1 + 1) ++ (len ++ (spaces (0 + 1) ++ (c!"bp" ++ (spaces (p2 + 1)
-    ++ (mol ++ (spaces (p3 + 1) ++ (topo ++ (spaces (p4 + 1) ++ (div ++ spaces (p5 + 1)))))))))))))
+/-- the LOCUS line when every field is present and the molecule type is one word (what a record with all
+fields looks like; used by the C03 bridge) -/
+theorem locusLine_full (l : RLocus) (ℓ : RecLayout) (tp : Topology) (hlen : l.len ≠ []) (hmol : l.mol ≠ [] ∧ ' ' ∉ l.mol)
+    (htopo : l.topo = some tp) (hdiv : l.division ≠ []) (hdate : l.date ≠ []) :
+    locusLine l ℓ = c!"LOCUS" ++ gap ℓ 0 ++ l.name ++ gap ℓ 1 ++ l.len ++ c!" bp" ++ gap ℓ 2 ++ l.mol ++ gap ℓ 3
+      ++ tp.text ++ gap ℓ 4 ++ l.division ++ gap ℓ 5 ++ l.date ++ spaces ℓ.locusTrail := by
+  have htt : topoText l.topo = tp.text := by rw [htopo]; rfl
+  have htx : tp.text ≠ [] := by cases tp <;> decide
+  have hm : molToks (ℓ.pads.getD 2 0) l.mol = [(ℓ.pads.getD 2 0, l.mol)] := by
+    unfold molToks; rw [if_neg hmol.1, splitC_of_not_mem ' ' _ hmol.2]; rfl
+  unfold locusLine locusToks
+  rw [if_neg hlen, hm]
+  simp only [optTok, htt, htx, hdiv, hdate, if_false, gapped, gap, List.map_append, List.map_cons, List.map_nil,
+    List.flatten_append, List.flatten_cons, List.flatten_nil, List.append_assoc, List.append_nil, List.cons_append,
+    List.nil_append]
+  simp [spaces, List.append_assoc]
 
-theorem L_eq_pre (p0 p1 p2 p3 p4 p5 : Nat) (name len mol topo div date : Str) :
-    L p0 p1 p2 p3 p4 p5 name len mol topo div date = Lpre p0 p1 p2 p3 p4 p5 name len mol topo div ++ date := by
-  simp only [L, Lpre, List.append_assoc]
+theorem gapped_snoc (ps : List (Nat × Str)) (g : Nat) (t : Str) : gapped (ps ++ [(g, t)]) = gapped ps ++ (spaces (g + 1) ++ t) := by
+  simp [gapped]
 
-theorem findDate_self_sp (d : Str) (h : isDateText d = true) : findDate (d ++ [' ']) = d := by
-  unfold isDateText at h
-  split at h
-  · rename_i d1 d2 m1 m2 m3 y1 y2 y3 y4
-    simp only [Bool.and_eq_true] at h
-    obtain ⟨⟨⟨⟨⟨⟨a1, a2⟩, am⟩, b1⟩, b2⟩, b3⟩, b4⟩ := h
-    have hm : isUpper m1 = true ∧ isUpper m2 = true ∧ isUpper m3 = true := by
-      have : ∀ m ∈ monthNames, m.all isUpper = true := by decide
-      have := this [m1, m2, m3] (by simpa using am)
-      simpa using this
-    simp [findDate, matchDate, a1, a2, b1, b2, b3, b4, hm.1, hm.2.1, hm.2.2]
-  · exact absurd h (by simp)
-
-/-- the longest molecule type that occurs, when exactly the types in `present` occur -/
-theorem longestContained_congr (s : Str) (cur : Str) (l : List Str) (f : Str → Bool)
-    (h : ∀ x ∈ l, contains s x = f x) :
-    longestContained s cur l = l.foldl (fun cur x => if (if f x then x else []).length > cur.length then (if f x then x else []) else cur) cur := by
-  induction l generalizing cur with
-  | nil => rfl
-  | cons x xs ih =>
-    simp only [longestContained, List.foldl_cons, h x (by simp)]
-    exact ih _ (fun y hy => h y (by simp [hy]))
-
-/-- `parseLocus` recovers every field of the LOCUS line, for every locus name (a blank-free token), every
-length, molecule type, topology, division, date and every choice of the six gaps -/
-theorem parseLocus_locusLine (l : RLocus) (n : Nat) (ℓ : RecLayout) (h : wfLocus l = true) :
-    parseLocus (locusLine l n ℓ) = .ok (toLocus l n) := by
-  simp only [wfLocus, Bool.and_eq_true, decide_eq_true_eq] at h
-  obtain ⟨⟨hname, hdivlt⟩, hdate⟩ := h
-  rw [locusLine_eq]
-  generalize ℓ.pads.getD 0 0 = p0; generalize ℓ.pads.getD 1 0 = p1; generalize ℓ.pads.getD 2 0 = p2
-  generalize ℓ.pads.getD 3 0 = p3; generalize ℓ.pads.getD 4 0 = p4; generalize ℓ.pads.getD 5 0 = p5
-  have hname0 : l.name ≠ [] := by
-    simp only [isLocusName, Bool.and_eq_true, bne_iff_ne, ne_eq] at hname; exact hname.1
-  have hname_sp : ' ' ∉ l.name := by
-    simp only [isLocusName, Bool.and_eq_true, List.all_eq_true, bne_iff_ne, ne_eq] at hname
-    intro hm; exact (hname.2 _ hm).2 rfl
-  have hlenD := ofNat_isDigit n
-  have hD := digitFacts hlenD
-  have hlen0 := ofNat_ne_nil n
-  have hdivmem : divisionCodes.getD l.division [] ∈ divisionCodes := by
-    rw [List.getD_eq_getElem?_getD, List.getElem?_eq_getElem hdivlt]; exact List.getElem_mem _
-  generalize hdv : divisionCodes.getD l.division [] = dv at *
-  obtain ⟨hdiv_sp, hdiv0, hdiv_lit, hdiv_c, hdiv_low, hdiv_circ, hdiv_lin⟩ := div_facts _ hdivmem
-  obtain ⟨hmol_sp, hmol0, hmol_lit, hmol_c, hmol_low, hmol_circ, hmol_lin⟩ := mol_facts l.mol
-  obtain ⟨htopo_sp, htopo0, htopo_c, htopo_low⟩ := topo_facts l.topo
-  have hdate_sp := date_nosp hdate
-  obtain ⟨dc, dr, hdeq, hdc⟩ := date_head_digit hdate
-  obtain ⟨dl, hdl, hdld⟩ := date_last hdate
-  have hdate0 : l.date ≠ [] := by rw [hdeq]; simp
-  obtain ⟨lc, lr, hleq⟩ : ∃ c r, ofNat n = c :: r := by
-    cases hn : ofNat n with
-    | nil => exact absurd hn hlen0
-    | cons c r => exact ⟨c, r, rfl⟩
-  have hlc : isDigit lc = true := hlenD lc (by rw [hleq]; simp)
-  generalize hLx : L p0 p1 p2 p3 p4 p5 l.name (ofNat n) l.mol.text l.topo.text dv l.date = Lx
-  -- (1) the line is its own TrimSpace
-  have htrim : trimSpace Lx = Lx := by
-    apply trimSpace_id
-    · intro c hc; rw [← hLx] at hc; simp [L] at hc; subst hc; decide
-    · intro c hc
-      rw [← hLx, L_eq_pre, getLast?_append_ne _ _ hdate0, hdl] at hc
-      cases hc; exact isSpace_false_of_digit hdld
+/-- `parseLocus` recovers every field of the LOCUS line: every name (a blank-free token), a stated length of
+any number of digits or none, each of the twelve molecule types or none, a topology or none, a division
+or none, a date or none, every choice of the gaps and of the trailing blanks -/
+theorem parseLocus_locusLine (l : RLocus) (ℓ : RecLayout) (h : wfLocus l = true) :
+    parseLocus (locusLine l ℓ) = .ok (toLocus l) := by
+  obtain ⟨F, hmol, hdiv, hdate⟩ := restFacts l h
+  have hname : Tok l.name := by
+    simp only [wfLocus, Bool.and_eq_true, isLocusName, bne_iff_ne, ne_eq, List.all_eq_true] at h
+    obtain ⟨⟨⟨⟨⟨h1, h2⟩, _⟩, _⟩, _⟩, _⟩ := h
+    exact ⟨h1, fun c hc => isSpace_false_of_print (h2 c hc).1 (h2 c hc).2⟩
+  have hmap := locusToks_map l ℓ
+  have htoks : ∀ p ∈ locusToks l ℓ, Tok p.2 := by
+    intro p hp
+    have : p.2 ∈ (locusToks l ℓ).map (·.2) := List.mem_map.mpr ⟨p, hp, rfl⟩
+    rw [hmap] at this
+    rcases List.mem_cons.mp this with e | e
+    · rw [e]; exact hname
+    · exact F.tok _ e
+  have hLOC : Tok c!"LOCUS" := by decide
+  -- (1) the line without its trailing blanks
+  have htrim : trimSpace (locusLine l ℓ) = c!"LOCUS" ++ gapped (locusToks l ℓ) := by
+    have hne : locusToks l ℓ ≠ [] := by intro e; rw [e] at hmap; simp at hmap
+    have := trimSpace_spaces 0 ℓ.locusTrail (c!"LOCUS" ++ gapped (locusToks l ℓ))
+      (by intro c hc; simp at hc; subst hc; decide)
+      (by
+        intro c hc
+        have hsplit := List.dropLast_concat_getLast hne
+        rcases hp : (locusToks l ℓ).getLast hne with ⟨g, t⟩
+        rw [← hsplit, hp, gapped_snoc] at hc
+        have ht := htoks (g, t) (by rw [← hp]; exact List.getLast_mem hne)
+        rw [← List.append_assoc, ← List.append_assoc, getLast?_append_ne _ _ ht.1] at hc
+        exact ht.2 c (List.mem_of_getLast? hc))
+    simp only [spaces, List.replicate_zero, List.nil_append] at this
+    rw [← this]; simp [locusLine, spaces, List.append_assoc]
   -- (2) the fields
-  have hfields : (split Lx c!" ").filter (· ≠ []) = [c!"LOCUS", l.name, ofNat n, c!"bp", l.mol.text, l.topo.text, dv, l.date] := by
-    rw [← hLx]
-    exact fields_L _ _ _ _ _ _ _ _ _ _ _ _ hname_sp hD.nosp hmol_sp htopo_sp hdiv_sp hdate_sp hname0 hlen0 hmol0 htopo0 hdiv0 hdate0
-  generalize hSx : S6 (ofNat n) l.mol.text l.topo.text dv l.date = Sx
-  -- (3) the base-pair pattern
-  have hbp : findBasePair Sx = ' ' :: ofNat n ++ [' ', 'b', 'p', ' '] := by
+  have hfields : (split (c!"LOCUS" ++ gapped (locusToks l ℓ)) c!" ").filter (· ≠ []) = c!"LOCUS" :: l.name :: restToks l := by
+    show (splitC ' ' _).filter (· ≠ []) = _
+    rw [fields_gapped _ _ hLOC htoks, hmap]
+  have hrne : restToks l ≠ [] := by simp [restToks]
+  have hnsp : ∀ t ∈ restToks l, ' ' ∉ t := fun t ht => (F.tok t ht).nosp
+  generalize hSx : sOf (restToks l) = Sx
+  -- (3) length and coding
+  have hbp : lenCodingOf (findBasePair Sx) = (l.len, if l.len = [] then [] else c!"bp") := by
+    by_cases hl : l.len = []
+    · have : findBasePair Sx = [] := by
+        rw [← hSx]; exact findBasePair_sOf_none _ (fun t ht => ⟨hnsp t ht, F.notnum_nolen hl t ht⟩)
+      simp [this, hl, lenCodingOf]
+    · have hd : ∀ c ∈ l.len, isDigit c = true := by
+        simp only [wfLocus, Bool.and_eq_true, List.all_eq_true] at h; exact h.1.1.1.2
+      obtain ⟨lc, lr, hleq⟩ : ∃ c r, l.len = c :: r := by
+        cases hn : l.len with
+        | nil => exact absurd hn hl
+        | cons c r => exact ⟨c, r, rfl⟩
+      have hlc : isDigit lc = true := hd lc (by rw [hleq]; simp)
+      obtain ⟨X, hX⟩ : ∃ X, sOf (molWords l.mol ++ (optS (topoText l.topo) ++ (optS l.division ++ optS l.date))) = ' ' :: X := by
+        cases (molWords l.mol ++ (optS (topoText l.topo) ++ (optS l.division ++ optS l.date))) <;> exact ⟨_, rfl⟩
+      have hS : Sx = ' ' :: (l.len ++ (' ' :: 'b' :: 'p' :: ' ' :: X)) := by
+        have e : restToks l = l.len :: c!"bp" :: (molWords l.mol ++ (optS (topoText l.topo) ++ (optS l.division ++ optS l.date))) := by
+          simp [restToks, optS, hl]
+        rw [← hSx, e]
+        simp only [sOf]
+        rw [hX]; simp
+      have hf : findBasePair Sx = ' ' :: l.len ++ [' ', 'b', 'p', ' '] := by
+        rw [hS]; exact findBasePair_at l.len X 'b' 'p' hl hd (by decide) (by decide)
+      have hsplit : split (trimSpace (' ' :: l.len ++ [' ', 'b', 'p', ' '])) c!" " = [l.len, c!"bp"] := by
+        have e : ' ' :: l.len ++ [' ', 'b', 'p', ' '] = spaces 1 ++ (l.len ++ c!" bp") ++ spaces 1 := by simp [spaces]
+        rw [e, trimSpace_spaces 1 1]
+        · show splitC ' ' (l.len ++ ' ' :: c!"bp") = _
+          rw [splitC_append ' ' _ _ (digitFacts hd).nosp]; rfl
+        · intro c hc; rw [hleq] at hc; simp at hc; subst hc; exact isSpace_false_of_digit hlc
+        · intro c hc; rw [getLast?_append_ne _ _ (by simp)] at hc; simp at hc; subst hc; decide
+      have hsplit' : split (trimSpace (' ' :: (l.len ++ [' ', 'b', 'p', ' ']))) c!" " = [l.len, c!"bp"] := hsplit
+      simp [lenCodingOf, hf, hl]
+      rw [hsplit']
+  -- (4) the molecule type
+  have hmolType : longestContained Sx [] genBankMoleculeTypes = l.mol := by
+    have hdecomp : restToks l = (optS l.len ++ [c!"bp"]) ++ (molWords l.mol ++ (optS (topoText l.topo) ++ (optS l.division ++ optS l.date))) := by
+      simp [restToks, List.append_assoc]
+    have hother : ∀ (P : Str → Bool), (∀ t, Other t → P t = false) → (restToks l).any P = (molWords l.mol).any P := by
+      intro P hP
+      rw [hdecomp, any_drop_left _ _ P (fun t ht => hP t (F.other t ht)),
+        any_drop_right _ _ P (fun t ht => hP t (F.other' t ht))]
+    rw [← mol_longest l.mol hmol]
+    apply longestContained_congr2
+    intro x hx
     rw [← hSx]
-    exact findBasePair_at (ofNat n) _ 'b' 'p' hlen0 hlenD (by decide) (by decide)
-  have hsplit : split (trimSpace (' ' :: ofNat n ++ [' ', 'b', 'p', ' '])) c!" " = [ofNat n, c!"bp"] := by
-    have e : ' ' :: ofNat n ++ [' ', 'b', 'p', ' '] = spaces 1 ++ (ofNat n ++ c!" bp") ++ spaces 1 := by
-      simp [spaces]
-    rw [e, trimSpace_spaces 1 1]
-    · show splitC ' ' (ofNat n ++ ' ' :: c!"bp") = _
-      rw [splitC_append ' ' _ _ hD.nosp]; rfl
-    · intro c hc; rw [hleq] at hc; simp at hc; subst hc; exact isSpace_false_of_digit hlc
-    · intro c hc; rw [getLast?_append_ne _ _ (by simp)] at hc; simp at hc; subst hc; decide
-  -- (4) literal searches
-  have hcl : ∀ lit ∈ lits, contains Sx lit = (l.mol.text == lit || dv == lit) := by
-    intro lit hl
-    obtain ⟨hs, _, hne, hup⟩ := lits_props lit hl
-    rw [← hSx, contains_S6 _ _ _ _ _ lit hs hne, fixed_contains.1 lit hl,
-      contains_false_of_class isUpper hup hD.noupper, hmol_c lit hl, htopo_c lit hl, hdiv_c lit hl,
-      date_contains_lit hdate lit hl]
-    simp
-  have hlow : ∀ w ∈ lowWords, contains Sx w = false := by
-    intro w hw
-    obtain ⟨hs, hne, hlo⟩ := lowWords_props w hw
-    rw [← hSx, contains_S6 _ _ _ _ _ w hs hne, fixed_contains.2 w hw, contains_false_of_class isLower hlo hD.nolower,
-      hmol_low w hw, htopo_low w hw, hdiv_low w hw,
-      contains_false_of_class isLower hlo (fun c hc => (date_chars hdate c hc).1)]
-    rfl
-  have hdivision : firstContained Sx genbankDivisions = dv := by
-    rw [divisions_same]
-    apply firstContained_of_eq _ _ _ _ hdivmem
-    intro y hy
-    have hyl : y ∈ lits := by simp [lits, hy]
-    rw [hcl y hyl]
-    have : (l.mol.text == y) = false := by
-      have : ∀ m : MolType, ∀ y ∈ divisionCodes, (m.text == y) = false := by intro m; cases m <;> decide
-      exact this _ _ hy
-    simp [this]
-  have hmolType : longestContained Sx [] genBankMoleculeTypes = l.mol.text := by
-    have hdvf : ∀ lit ∈ [c!"DNA", c!"mRNA", c!"tRNA", c!"rRNA"], (dv == lit) = false := by
-      have : ∀ d ∈ divisionCodes, ∀ lit ∈ [c!"DNA", c!"mRNA", c!"tRNA", c!"rRNA"], (d == lit) = false := by decide
-      exact this _ hdivmem
-    have part : ∀ (w lit : Str), w ∈ lowWords → w <:+: lit → contains Sx lit = false :=
-      fun w lit hw hp => contains_false_of_part hp (hlow w hw)
-    rw [longestContained_congr Sx [] genBankMoleculeTypes (fun x => x == l.mol.text)]
-    · cases l.mol <;> decide
-    · intro x hx
-      simp only [genBankMoleculeTypes, List.mem_cons, List.not_mem_nil, or_false] at hx
-      have h4 : ∀ lit ∈ [c!"DNA", c!"mRNA", c!"tRNA", c!"rRNA"], contains Sx lit = (lit == l.mol.text) := by
-        intro lit hl
-        rw [hcl lit (by simp only [lits, List.mem_append]; exact Or.inl hl), hdvf lit hl, Bool.or_false]
-        exact Bool.beq_comm
-      have hm4 : ∀ m : MolType, ∀ lit ∈ [c!"genomic DNA", c!"genomic RNA", c!"other RNA", c!"other DNA",
-          c!"transcribed RNA", c!"viral cRNA", c!"unassigned DNA", c!"unassigned RNA"], (lit == m.text) = false := by
-        intro m; cases m <;> decide
-      rcases hx with rfl | rfl | rfl | rfl | rfl | rfl | rfl | rfl | rfl | rfl | rfl | rfl
-      · exact h4 _ (by decide)
-      · rw [part c!"genomic" c!"genomic DNA" (by decide) ⟨[], c!" DNA", rfl⟩, hm4 _ _ (by decide)]
-      · rw [part c!"genomic" c!"genomic RNA" (by decide) ⟨[], c!" RNA", rfl⟩, hm4 _ _ (by decide)]
-      · exact h4 _ (by decide)
-      · exact h4 _ (by decide)
-      · exact h4 _ (by decide)
-      · rw [part c!"other" c!"other RNA" (by decide) ⟨[], c!" RNA", rfl⟩, hm4 _ _ (by decide)]
-      · rw [part c!"other" c!"other DNA" (by decide) ⟨[], c!" DNA", rfl⟩, hm4 _ _ (by decide)]
-      · rw [part c!"transcribed" c!"transcribed RNA" (by decide) ⟨[], c!" RNA", rfl⟩, hm4 _ _ (by decide)]
-      · rw [part c!"viral" c!"viral cRNA" (by decide) ⟨[], c!" cRNA", rfl⟩, hm4 _ _ (by decide)]
-      · rw [part c!"unassigned" c!"unassigned DNA" (by decide) ⟨[], c!" DNA", rfl⟩, hm4 _ _ (by decide)]
-      · rw [part c!"unassigned" c!"unassigned RNA" (by decide) ⟨[], c!" RNA", rfl⟩, hm4 _ _ (by decide)]
-  have hne_len : ∀ lit : Str, (∀ x, lit.head? = some x → isDigit x = false) → (lit == ofNat n) = false :=
-    fun lit hl => ne_of_head_digit hleq hlc hl
-  have hne_date : ∀ lit : Str, (∀ x, lit.head? = some x → isDigit x = false) → (lit == l.date) = false :=
-    fun lit hl => ne_of_head_digit hdeq hdc hl
-  have hcirc : contains Sx c!" circular " = (l.topo == Topology.circular) := by
+    rcases molTypes_cases x hx with ⟨hxl, hxs⟩ | ⟨p, hp, rfl⟩
+    · have hne : x ≠ [] := (lits_props x (by simp [hxl])).2.2.1
+      rw [contains_sOf x hxs hne, contains_sOf x hxs hne]
+      exact hother _ (fun t ht => ht.1 x hxl)
+    · obtain ⟨p1, p2, p3, p4⟩ := spaced_props p hp
+      cases hc : contains (sOf (molWords l.mol)) (p.1 ++ ' ' :: p.2) with
+      | true =>
+        rw [contains_iff] at hc ⊢
+        rw [hdecomp]
+        exact hc.trans (sOf_infix _ _ _)
+      | false =>
+        cases hS : contains (sOf (restToks l)) (p.1 ++ ' ' :: p.2) with
+        | false => rfl
+        | true =>
+          exfalso
+          have hne1 : p.1 ≠ [] := (lits_props p.1 (by simp [p1])).2.2.1
+          have hs1 : ' ' ∉ p.1 := (lits_props p.1 (by simp [p1])).1
+          have h1 : contains (sOf (restToks l)) p.1 = true := by
+            rw [contains_iff] at hS ⊢
+            exact (List.prefix_append p.1 _).isInfix.trans hS
+          have h2 : contains (sOf (restToks l)) (' ' :: p.2) = true := by
+            rw [contains_iff] at hS ⊢
+            exact (List.suffix_append p.1 _).isInfix.trans hS
+          rw [contains_sOf p.1 hs1 hne1, hother _ (fun t ht => ht.1 p.1 p1)] at h1
+          rw [contains_sOf_sp p.2 p3 p4 _ hnsp, hother _ (fun t ht => ht.2 p.2 p2)] at h2
+          have := mol_table l.mol hmol p hp h1 h2
+          rw [hc] at this; cases this
+  -- (5) topology
+  have htopoAny : ∀ (u : Str) (tp : Topology), u = tp.text → (∀ tp' : Topology, (u == tp'.text) = (tp' == tp)) →
+      (∀ t, NoCirc t → (u == t) = false) → (restToks l).any (u == ·) = (l.topo == some tp) := by
+    intro u tp hu hcmp hnc
+    have e : restToks l = (optS l.len ++ ([c!"bp"] ++ molWords l.mol)) ++ (optS (topoText l.topo) ++ (optS l.division ++ optS l.date)) := by
+      simp [restToks, List.append_assoc]
+    rw [e, any_drop_left _ _ _ (fun t ht => hnc t (F.nocirc t ht)),
+      any_drop_right _ _ _ (fun t ht => hnc t (F.nocirc' t ht))]
+    cases htp : l.topo with
+    | none => simp [topoText, optS]
+    | some x =>
+      have hne : x.text ≠ [] := by cases x <;> decide
+      simp only [topoText, optS, hne, if_false, List.any_cons, List.any_nil, Bool.or_false, Bool.false_or]
+      rw [hcmp x]; cases x <;> cases tp <;> rfl
+  have hcirc : contains Sx c!" circular " = (l.topo == some Topology.circular) := by
     rw [← hSx]
-    have := contains_S6_tok _ _ _ _ _ hD.nosp hmol_sp htopo_sp hdiv_sp hdate_sp 'c' c!"ircular" (by decide) (by decide)
-    rw [show (' ' :: 'c' :: (c!"ircular" ++ [' '])) = c!" circular " from rfl] at this
-    rw [this, hne_len _ (by intro x hx; cases hx; decide), hne_date _ (by intro x hx; cases hx; decide), hmol_circ, hdiv_circ]
-    cases l.topo <;> decide
-  have hlin : contains Sx c!" linear " = (l.topo == Topology.linear) := by
+    have := contains_sOf_tok c!"circular" (by decide) (by decide) (restToks l) hnsp
+    rw [show (' ' :: (c!"circular" ++ [' '])) = c!" circular " from rfl] at this
+    rw [this]
+    exact htopoAny _ .circular rfl (by intro tp'; cases tp' <;> rfl) (fun t ht => ht.1)
+  have hlin : contains Sx c!" linear " = (l.topo == some Topology.linear) := by
     rw [← hSx]
-    have := contains_S6_tok _ _ _ _ _ hD.nosp hmol_sp htopo_sp hdiv_sp hdate_sp 'l' c!"inear" (by decide) (by decide)
-    rw [show (' ' :: 'l' :: (c!"inear" ++ [' '])) = c!" linear " from rfl] at this
-    rw [this, hne_len _ (by intro x hx; cases hx; decide), hne_date _ (by intro x hx; cases hx; decide), hmol_lin, hdiv_lin]
-    cases l.topo <;> decide
-  -- (5) the date
+    have := contains_sOf_tok c!"linear" (by decide) (by decide) (restToks l) hnsp
+    rw [show (' ' :: (c!"linear" ++ [' '])) = c!" linear " from rfl] at this
+    rw [this]
+    exact htopoAny _ .linear rfl (by intro tp'; cases tp' <;> rfl) (fun t ht => ht.2)
+  -- (6) division
+  have hdivision : firstContained Sx genbankDivisions = l.division := by
+    rw [divisions_same, ← hSx]
+    have e : restToks l = (optS l.len ++ ([c!"bp"] ++ (molWords l.mol ++ optS (topoText l.topo)))) ++ (optS l.division ++ optS l.date) := by
+      simp [restToks, List.append_assoc]
+    have hany : ∀ y ∈ divisionCodes, contains (sOf (restToks l)) y = (optS l.division).any (contains · y) := by
+      intro y hy
+      obtain ⟨hs, _, hne, _⟩ := lits_props y (by simp [hy])
+      rw [contains_sOf y hs hne, e, any_drop_left _ _ _ (fun t ht => F.divfree t ht y hy),
+        any_drop_right _ _ _ (fun t ht => F.divfree' t ht y hy)]
+    rcases hdiv with hd | hd
+    · rw [hd]
+      apply firstContained_none
+      intro y hy; rw [hany y hy, hd]; rfl
+    · apply firstContained_of_eq _ _ _ _ hd
+      intro y hy
+      have hne : l.division ≠ [] := (div_token _ hd).1.1
+      rw [hany y hy]
+      simp only [optS, hne, if_false, List.any_cons, List.any_nil, Bool.or_false]
+      exact (div_token _ hd).2.2.2.2.2 y hy
+  -- (7) the date
   have hfd : findDate Sx = l.date := by
-    have : ∃ pre, Sx = pre ++ (l.date ++ [' ']) ∧ '-' ∉ pre := by
-      rw [← hSx]
-      refine ⟨spaces (0 + 1) ++ (ofNat n ++ (spaces (0 + 1) ++ (c!"bp" ++ (spaces (0 + 1) ++ (l.mol.text ++ (spaces (0 + 1)
-        ++ (l.topo.text ++ (spaces (0 + 1) ++ (dv ++ spaces (0 + 1)))))))))), by simp only [S6, List.append_assoc, List.append_nil]; rfl, ?_⟩
-      have hmd : ∀ m : MolType, '-' ∉ m.text := by intro m; cases m <;> decide
-      have htd : ∀ t : Topology, '-' ∉ t.text := by intro t; cases t <;> decide
-      have hdd : ∀ d ∈ divisionCodes, '-' ∉ d := by decide
-      simp only [List.mem_append, not_or, spaces, List.mem_replicate]
-      simp [hD.nodash, hmd, htd, hdd _ hdivmem]
-    obtain ⟨pre, hpre, hnd⟩ := this
-    obtain ⟨d1, d2, mon, y1, y2, y3, y4, hd, _, a1, a2, _⟩ := date_parts hdate
-    rw [hpre, findDate_skip pre _ hnd, findDate_self_sp _ hdate]
-    · rw [hd]; simp; rintro rfl; revert a1; decide
-    · rw [hd]; simp; rintro rfl; revert a2; decide
+    rw [← hSx]
+    have e : restToks l = (optS l.len ++ ([c!"bp"] ++ (molWords l.mol ++ (optS (topoText l.topo) ++ optS l.division)))) ++ optS l.date := by
+      simp [restToks, List.append_assoc]
+    rcases hdate with hd | hd
+    · rw [hd]
+      apply findDate_none
+      rw [e, hd]
+      simp only [optS, if_true, List.append_nil]
+      exact dash_sOf _ F.nodash
+    · have hne : l.date ≠ [] := (date_token hd).1.1
+      have ed : optS l.date = [l.date] := by simp [optS, hne]
+      rw [e, ed]
+      rw [sOf_snoc, findDate_skip _ _ (dash_sOf _ F.nodash) ?_ ?_, findDate_self_sp _ hd]
+      · have := (date_dash hd).1
+        cases hdd : l.date with
+        | nil => exact absurd hdd hne
+        | cons a r => rw [hdd] at this; simpa using this
+      · have := (date_dash hd).2
+        cases hdd : l.date with
+        | nil => exact absurd hdd hne
+        | cons a r =>
+          rw [hdd] at this
+          cases r with
+          | nil => simp
+          | cons b r' => simpa using this
   -- assemble
   unfold parseLocus
   simp only [htrim, hfields]
-  have hj : c!" " ++ join c!" " (List.drop 2 [c!"LOCUS", l.name, ofNat n, c!"bp", l.mol.text, l.topo.text, dv, l.date]) ++ c!" " = Sx := by
-    rw [← hSx, ← S6_eq]; rfl
+  have hj : c!" " ++ join c!" " (List.drop 2 (c!"LOCUS" :: l.name :: restToks l)) ++ c!" " = Sx := by
+    rw [← hSx, ← sOf_eq_join _ hrne]; rfl
   simp only [List.getElem?_cons_succ, List.getElem?_cons_zero]
   rw [hj]
-  simp only [hbp, hsplit, hmolType, hcirc, hlin, hdivision, hfd]
-  rw [← hdv]; simp [toLocus]
+  simp only [hmolType, hcirc, hlin, hdivision, hfd, hbp]
+  simp [toLocus]
 
 end PolyVerif.Lemmas.Genbank
